@@ -1,6 +1,7 @@
 import Driver.Util
 import TrimeshVerif.Model.RunLength
 import TrimeshVerif.Model.Views
+import TrimeshVerif.Model.Grid
 open Lean Drv TV.RunLength
 namespace Drv.C13
 
@@ -21,6 +22,16 @@ def handle (j : Json) : Except String Json := do
   let op ← fld j "op" jStr
   let m ← fldD j "m" jNat 255
   match op with
+  | "grid" =>
+    let pitch ← fld j "pitch" jRat
+    let origin ← fld j "origin" (jList jRat)
+    let pts ← fld j "points" (jList (jList jRat))
+    let idx ← fld j "indices" (jList (jList jInt))
+    pure <| obj [
+      ("to_index", ofList (fun (p : List Rat) => ofList ofInt
+        ((p.zip origin).map (fun po => TV.Grid.pointToIndex pitch po.2 po.1))) pts),
+      ("to_point", ofList (fun (ix : List Int) => ofList ofRat
+        ((ix.zip origin).map (fun io => TV.Grid.indexToPoint pitch io.2 io.1))) idx)]
   | "viewmap" =>
     -- index maps of the lazy views on a list of multi-indices
     let shape ← fld j "shape" (jList jNat)
